@@ -133,7 +133,7 @@ def cases(tier):
                                'syntax': SYNTAXES[idx % 3]}
     # the same with a name that is also the name of a builtin the
     # expression language offers (as _.max, _.str, ...): an ordinary name
-    for name in ('max', 'str', 'len'):
+    for name in ('max', 'str', 'len', '_n'):
         for k in range(1, 7):
             for sub in itertools.combinations(SOURCES, k):
                 for kind in ('plain', 'callable'):
